@@ -27,26 +27,33 @@ from saml2_tophat.ident import IdentDB
 from saml2_tophat.saml import NameID
 
 CLAIM = {
-    "text": "Coq theorems (Props/C18.v) over an executable model of ident.code/decode (urllib quote with safe='/' / unquote) and of IdentDB as a state machine over ONE string-keyed map exactly as the Python uses its dict/shelve (space-joined codes under the user id, user id under the identifier text). The model follows the library WITH the two repairs proposed_fix/C18-1.diff (remove_remote deletes the user's entry when it removes the last identifier) and proposed_fix/C18-2.diff (remove_local no longer raises NameError on Python 3); the code before the repairs is kept as ..._before_fix definitions with refutation witnesses. Codec, for ALL byte strings in all five fields (induction, not sampling): decode(code n) = normalised n (only ''/None are identified), code is injective on normalised identifiers and never contains a space. Store, by induction over ANY sequence of public operations (issue, persistent/transient, construct, mapping request, manage-name-id, remove_remote, remove_local, lookups) whose user ids and identifier texts come from disjoint key spaces and whose digest source never yields a user id: EVERY element of the code list recorded under a user decodes to an identifier with a non-empty text that resolves (find_local_id) to exactly that user, whatever resolves to a user is recorded under that user, and no two recorded identifiers share a text. Persistent identifiers, full statements for ANY qualifiers including empty ones: whatever persistent_nameid/match_local_id finds, and whatever a mapping request returns for any policy, has a non-empty text resolving to the right principal; the call after an issuing call returns the same identifier and changes nothing, later issues for anybody never change it; identifiers matched for different users or different SP/name qualifiers (as Python reads them: None = '') have different texts. remove_local(u) in any reachable state returns None, leaves u without recorded identifier, no text resolves to u any more, and records and resolutions of all other users are untouched. Every newly issued identifier text is not a key of the previous state (the create_id loop), for every digest stream. Outside the hypotheses (kept visible as witnesses): raw store() can re-bind an identifier; e-mail format checks freshness of the wrong string. Tie to the code: ident.ATTR and the three format constants are regenerated from source on every run; model vs real IdentDB after every step on exhaustive operation sequences over a small alphabet and long random histories (dict- and shelve-backed), codec on hostile field contents.",
-    "note": "Trusted: Coq kernel + vm_compute; the model is hand-written and tied to the code by the correspondence (exhaustive up to the stated length over the stated alphabets, random beyond). The check expects /repo + proposed_fix/C18-1.diff + proposed_fix/C18-2.diff: on the code without them the correspondence and the oracle keys persistent:identifier-without-text:*, map_req:identifier-without-text:*, remove_local:raises-NameError report the defects again. Strings are modelled as UTF-8 byte lists (UTF-8 encode/decode itself is not modelled; texts whose percent-escapes are not valid UTF-8 are generated but not compared). The digest source (sha256 over rndbytes) is an argument of the model (the list of values drawn during the call), never an axiom; its freshness w.r.t. user ids is an explicit hypothesis (op_wf). int() forms with whitespace/underscores/non-ASCII digits in decode, NameIDs without text in store(), and remove_local meeting a stored code without text on a shelve (AttributeError instead of the swallowed KeyError; not reachable through the operations) are outside the model. Partial: stability across manage-name-id when low-level calls created two non-transient identifiers for one (user, SP) is not claimed.",
-    "technique": "machine-checked proof (Coq; induction over strings and over operation sequences) + regenerated constants + exhaustive/random model-vs-implementation correspondence after every step + reference-map oracle",
+    "text": "Coq theorems (Props/C18.v) over an executable model of ident.code/decode (urllib quote with safe='/' / unquote) and of IdentDB as a state machine over ONE string-keyed map exactly as the Python uses its dict/shelve (space-joined codes under the user id, user id under the identifier text). The model follows the library WITH the two repairs proposed_fix/C18-1.diff (remove_remote deletes the user's entry when it removes the last identifier) and proposed_fix/C18-2.diff (remove_local no longer raises NameError on Python 3); the code before the repairs is kept as ..._before_fix definitions with refutation witnesses. Codec, for ALL byte strings in all five fields (induction, not sampling): decode(code n) = normalised n (only ''/None are identified), code is injective on normalised identifiers and never contains a space. Store, by induction over ANY sequence of public operations (issue, persistent/transient, construct, mapping request, manage-name-id, remove_remote, remove_local, lookups) whose user ids and identifier texts come from disjoint key spaces and whose digest source never yields a user id: EVERY element of the code list recorded under a user decodes to an identifier with a non-empty text that resolves (find_local_id) to exactly that user, whatever resolves to a user is recorded under that user, and no two recorded identifiers share a text. Persistent identifiers, full statements for ANY qualifiers including empty ones: whatever persistent_nameid/match_local_id finds, and whatever a mapping request returns for any policy, has a non-empty text resolving to the right principal; the call after an issuing call returns the same identifier and changes nothing, later issues for anybody never change it; identifiers matched for different users or different SP/name qualifiers (as Python reads them: None = '') have different texts. remove_local(u) in any reachable state returns None, leaves u without recorded identifier, no text resolves to u any more, and records and resolutions of all other users are untouched. Every newly issued identifier text is not a key of the previous state (the create_id loop), for every digest stream. Across processes (Model/IdentWorkers.v: a deployment is a list of workers, each with its own store and its own digest stream): by induction over a worker's history every text it issues new (transient call, persistent call that finds nothing) is an element of its own stream and was no key of its store, so workers whose streams share no digest never issue the same text, for any configurations, stores, histories and number of workers, and each transient identifier resolves to its own user in its own store; with equal streams (a fork duplicated the generator state) the same text goes to two users (C18_workers_shared_stream_refuted). Outside the hypotheses (kept visible as witnesses): raw store() can re-bind an identifier; e-mail format checks freshness of the wrong string. Tie to the code: ident.ATTR and the three format constants are regenerated from source on every run; model vs real IdentDB after every step on exhaustive operation sequences over a small alphabet and long random histories (dict- and shelve-backed), codec on hostile field contents; the independence of the digest streams of different processes is tied on every run with the REAL digest source: workers forked after import and after issuing (3 per round, 5 transient + 5 persistent identifiers each on their own IdentDB, results through pipes), the parent afterwards and 2 fresh interpreters must issue pairwise different texts (also rndstr/rndbytes/sid), compared with the deployment model; rndstr, rndbytes, sid, create_id and the issuing calls must not repeat after random.seed(constant) nor with all clocks and the pid frozen.",
+    "note": "Trusted: Coq kernel + vm_compute; the model is hand-written and tied to the code by the correspondence (exhaustive up to the stated length over the stated alphabets, random beyond). The check expects /repo as it is (the repairs proposed_fix/C18-1.diff and C18-2.diff are committed there): on code without them the correspondence and the oracle keys persistent:identifier-without-text:*, map_req:identifier-without-text:*, remove_local:raises-NameError report the defects again. Strings are modelled as UTF-8 byte lists (UTF-8 encode/decode itself is not modelled; texts whose percent-escapes are not valid UTF-8 are generated but not compared). The digest source (sha256 over rndbytes) is an argument of the model (the list of values drawn during the call), never an axiom; its freshness w.r.t. user ids is an explicit hypothesis (op_wf), and so is the independence of the streams of different processes (independent / independent_all), which the units processes and os-source test on the real source (a test, not a proof: 2 rounds x 3 forked workers, 2 fresh interpreters). int() forms with whitespace/underscores/non-ASCII digits in decode, NameIDs without text in store(), and remove_local meeting a stored code without text on a shelve (AttributeError instead of the swallowed KeyError; not reachable through the operations) are outside the model. Partial: stability across manage-name-id when low-level calls created two non-transient identifiers for one (user, SP) is not claimed.",
+    "technique": "machine-checked proof (Coq; induction over strings and over operation sequences, per worker of a deployment) + regenerated constants + exhaustive/random model-vs-implementation correspondence after every step + reference-map oracle + forked-worker / fresh-interpreter freshness oracle on the real random source",
 }
 TRUSTED = [
     "Gen/IdentConsts.v (ident.ATTR, NAMEID_FORMAT_{PERSISTENT,TRANSIENT,EMAILADDRESS} as ident.py sees them) is regenerated by harness/translate_c18.py",
     "modelled: ident.code/decode, IdentDB.store/remove_remote/remove_local/create_id/get_nameid/find_nameid/construct_nameid(+nim_args)/transient_nameid/persistent_nameid/find_local_id/match_local_id/handle_name_id_mapping_request/handle_manage_name_id_request; NOT modelled: UTF-8, sha256/rndbytes (an argument of the model), shelve/pickle (exercised by the shelve-backed runs), mongo_store.IdentMDB",
-    "the harness replaces the name sha256 inside saml2_tophat.ident by a scripted digest object (self-checked; fallback: read ids back)",
+    "the harness replaces the name sha256 inside saml2_tophat.ident by a scripted digest object (self-checked; fallback: read ids back); the units processes / os-source / deployment run with the REAL sha256 and random source, identifiers read back",
+    "Model/IdentWorkers.v (op_cands, stream, issued_texts, show_workers) is tied by the unit deployment: every worker's outputs after every step, the texts it issued new and the pairwise-disjointness flag, model vs the real forked workers",
+    "os.fork / pipes / subprocess of the harness itself",
 ]
 ASSUMPTIONS = [
     "key-space hypothesis of the store theorems (op_wf): user ids satisfy is_user, identifier texts handed in by callers and every digest (also digest@domain) do not; all strings are byte lists (< 256)",
     "e-mail format identifiers are excluded from the store invariant unless IdentDB.domain is empty (the create_id loop checks the digest, not digest@domain: C18_email_collision_refuted)",
     "remove_local is called with a user id (is_user): called with an identifier text it deletes that text's reverse entry only, which is key-space mixing by the caller",
-    "the library state is /repo + proposed_fix/C18-1.diff + proposed_fix/C18-2.diff",
+    "the library state is /repo as it is (with the committed repairs C18-1, C18-2)",
+    "independence of processes (independent / independent_all in Proofs/IdentWorkers_lemmas.v): the digest stream of one process - everything sha256(rndbytes(32)...) yields there - shares no value with the stream of any other process, forked or freshly started; false for a generator whose state lives in process memory that a fork duplicates (C18_workers_shared_stream_refuted); tied by the units processes (fork after import / after issuing, fresh interpreters) and os-source (no dependence on random.seed, clocks, pid)",
+    "across processes only identifier texts issued NEW by transient_nameid / persistent_nameid are claimed different; e-mail format identifiers (digest@domain) are outside that statement",
 ]
 RULE = ("history unit: EVERY operation sequence of the stated length over the operation alphabet (users u1,u2 x SP qualifiers sp1,sp2,'' x "
         "persistent/transient/construct/mapping/manage/remove on first- and last-issued identifiers, scripted colliding digests) plus random long "
         "histories over a wider alphabet (3 users incl. one that looks like a code, 4 SP qualifiers incl. '' and a hostile one, 2 name qualifiers, "
         "3 formats, domain set/unset); after every state-changing step the observation operations are appended. Non-trivial = history with at "
-        "least one successful state change (distinct by content). codec unit: exhaustive singles/pairs of hostile field values + random.")
+        "least one successful state change (distinct by content). codec unit: exhaustive singles/pairs of hostile field values + random. "
+        "processes unit (real digest source, both tiers): 2 rounds (fork right after import; fork after the parent has issued) x 3 forked workers + the parent "
+        "afterwards (+ the warm-up history), each 5 transient + 5 persistent identifiers for different users and the persistent calls repeated, and 2 fresh "
+        "interpreters x (3 + 3): all texts pairwise different; os-source unit: 8 draws x 2 modes x 3 calls.")
 
 PERSISTENT = saml.NAMEID_FORMAT_PERSISTENT
 TRANSIENT = saml.NAMEID_FORMAT_TRANSIENT
@@ -668,6 +675,300 @@ def unit_witnesses(ctx, scripted):
     ctx.correspond("witness_histories", "Model.Ident", "show_history", "(cfg * list op)", cases)
 
 
+# ------------------------------------------------------------------ freshness across processes (real random source)
+class _Rec(object):
+    """stand-in for ctx inside a forked child: records what World reports, shipped back through the pipe"""
+    def __init__(self):
+        self.fails, self.counts = [], {}
+
+    def count(self, k, n=1):
+        self.counts[k] = self.counts.get(k, 0) + n
+
+    def oracle_fail(self, key, what, rep):
+        self.fails.append((key, what, rep))
+
+    def nontriv(self, o):
+        pass
+
+    def sample(self, o, limit=6):
+        pass
+
+
+N_WORKERS, N_IDS = 3, 5
+
+
+def worker_history(ctx, tag):
+    """what ONE process does: its own dict-backed IdentDB, N_IDS transient and N_IDS persistent identifiers for
+    different users through the public methods and the REAL digest source (no script), then every persistent
+    call once more (stability).  Returns (transient texts, persistent texts, correspondence case, World)."""
+    users = ["%s-user%d" % (tag, j) for j in range(N_IDS)]
+    w = World(ctx, False, users=users)
+    tt, pt = [], []
+    for j, u in enumerate(users):
+        r = w.apply(("transient", u, "sp%d" % (j % 2 + 1), "", []))
+        tt.append(r.text if isinstance(r, NameID) else repr(r))
+    for j, u in enumerate(users):
+        r = w.apply(("persistent", u, "sp1", "", []))
+        pt.append(r.text if isinstance(r, NameID) else repr(r))
+    for j, u in enumerate(users):
+        w.apply(("persistent", u, "sp1", "", []))
+    return tt, pt, dict(w.case("worker:" + tag), ops=list(w.ops), outs=list(w.outs), cfg=w.cfg()), w
+
+
+def _child_main(tag, wfd):
+    import pickle
+    import traceback
+    rc = 0
+    try:
+        rec = _Rec()
+        tt, pt, case, _w = worker_history(rec, tag)
+        from saml2_tophat import s_utils
+        msg = dict(tag=tag, pid=os.getpid(), tt=tt, pt=pt, case=case, fails=rec.fails, counts=rec.counts,
+                   rndstr=[s_utils.rndstr(24) for _ in range(3)], rndbytes=[s_utils.rndbytes(24) for _ in range(3)],
+                   sid=[s_utils.sid() for _ in range(2)])
+    except BaseException:      # noqa
+        msg, rc = dict(tag=tag, error=traceback.format_exc()), 3
+    try:
+        data = pickle.dumps(msg, 2)
+        while data:
+            n = os.write(wfd, data)
+            data = data[n:]
+        os.close(wfd)
+    finally:
+        os._exit(rc)
+
+
+def fork_round(tags):
+    """fork len(tags) children NOW (they inherit whatever state the package holds in memory); each runs
+    worker_history on its own IdentDB and ships the result back through its pipe"""
+    import pickle
+    import sys
+    sys.stdout.flush()
+    sys.stderr.flush()
+    kids = []
+    for tag in tags:
+        rfd, wfd = os.pipe()
+        pid = os.fork()
+        if pid == 0:
+            os.close(rfd)
+            for r2, _p, _t in kids:
+                os.close(r2)
+            _child_main(tag, wfd)
+        os.close(wfd)
+        kids.append((rfd, pid, tag))
+    out = []
+    for rfd, pid, tag in kids:
+        buf = b""
+        while True:
+            chunk = os.read(rfd, 1 << 16)
+            if not chunk:
+                break
+            buf += chunk
+        os.close(rfd)
+        os.waitpid(pid, 0)
+        try:
+            out.append(pickle.loads(buf))
+        except Exception as e:      # noqa
+            out.append(dict(tag=tag, error="no result from the child: %r" % e))
+    return out
+
+
+SPAWN_SRC = r"""
+import json, sys
+from saml2_tophat.ident import IdentDB
+from saml2_tophat import s_utils
+idb = IdentDB({})
+tt = [idb.transient_nameid("user%d" % j, "sp1", "").text for j in range(3)]
+pt = [idb.persistent_nameid("user%d" % j, "sp1", "").text for j in range(3)]
+print(json.dumps(dict(tt=tt, pt=pt, rndstr=[s_utils.rndstr(24) for _ in range(3)], sid=[s_utils.sid() for _ in range(2)])))
+"""
+
+
+def spawn_round(n):
+    """n FRESH interpreters (same environment, same hash seed) started at the same moment"""
+    import subprocess
+    import sys
+    env = dict(os.environ)
+    env["PYTHONHASHSEED"] = "0"
+    ps = [subprocess.Popen([sys.executable, "-c", SPAWN_SRC], stdout=subprocess.PIPE, stderr=subprocess.PIPE, env=env) for _ in range(n)]
+    out = []
+    for k, p in enumerate(ps):
+        try:
+            so, se = p.communicate(timeout=300)
+        except subprocess.TimeoutExpired:       # an overloaded machine, not the library: not compared
+            p.kill()
+            p.communicate()
+            out.append(dict(tag="spawn%d" % k, skipped=True))
+            continue
+        try:
+            d = json.loads(so.decode())
+            d["tag"] = "spawn%d" % k
+        except Exception:       # noqa
+            d = dict(tag="spawn%d" % k, error=se.decode("utf-8", "replace")[-800:])
+        out.append(d)
+    return out
+
+
+class _Frozen(object):
+    """every clock the time module offers stands still, os.getpid is constant, and the global `random` is re-seeded
+    with a constant by the caller: whatever a value drawn inside still varies with is the OS source"""
+    NAMES = ["time", "time_ns", "monotonic", "monotonic_ns", "perf_counter", "perf_counter_ns", "process_time", "process_time_ns"]
+
+    def __enter__(self):
+        import time
+        self.time, self.saved = time, {}
+        for n in self.NAMES:
+            if hasattr(time, n):
+                self.saved[n] = getattr(time, n)
+                v = 1700000000 * (10 ** 9 if n.endswith("_ns") else 1)
+                setattr(time, n, (lambda v=v, isf=not n.endswith("_ns"): float(v) if isf else v))
+        self.getpid = os.getpid
+        os.getpid = lambda: 4242
+        return self
+
+    def __exit__(self, *a):
+        for n, f in self.saved.items():
+            setattr(self.time, n, f)
+        os.getpid = self.getpid
+
+
+def _draws():
+    """the sources the identifier text comes from, as callables returning one value"""
+    from saml2_tophat import s_utils
+    return [
+        ("rndstr", lambda: s_utils.rndstr(32)),
+        ("rndstr-alphabet", lambda: s_utils.rndstr(32, "abcdefghijklmnop")),
+        ("rndbytes", lambda: s_utils.rndbytes(32)),
+        ("sid", lambda: s_utils.sid()),
+        ("IdentDB._create_id", lambda: IdentDB({})._create_id(TRANSIENT, "", "sp1")),
+        ("IdentDB.create_id", lambda: IdentDB({}).create_id(PERSISTENT, "nq", "sp1")),
+        ("transient_nameid", lambda: IdentDB({}).transient_nameid("u1", "sp1", "").text),
+        ("persistent_nameid", lambda: IdentDB({}).persistent_nameid("u1", "sp1", "").text),
+    ]
+
+
+def unit_os_source(ctx):
+    """cheap behavioural test: the digest source must not follow anything a second process can share with this
+    one - the state of the global `random` generator (constant seed before each of two calls), the clock, the pid"""
+    import random as _random
+    state = _random.getstate()
+    try:
+        for name, f in _draws():
+            for mode in ("seeded", "seeded+frozen-clock-and-pid"):
+                vals = []
+                for _ in range(3):
+                    _random.seed(20240917)
+                    if mode == "seeded":
+                        vals.append(_call(f))
+                    else:
+                        with _Frozen():
+                            vals.append(_call(f))
+                ctx.count("os-source:%s:%s" % (name, mode))
+                bad = [v for v in vals if isinstance(v, Exn)]
+                if bad:
+                    ctx.oracle_fail("os-source:%s:raises-%s" % (name, bad[0].name), "%s raises %s (%s)" % (name, bad[0].name, mode),
+                                    {"unit": "os-source", "draw": name, "mode": mode})
+                elif len(set(vals)) != len(vals):
+                    ctx.oracle_fail("os-source:%s:repeats-when-%s" % (name, mode),
+                                    "%s yields %r on three calls each preceded by random.seed(constant) (%s): the value follows state "
+                                    "that a forked or simultaneously started process shares" % (name, vals, mode),
+                                    {"unit": "os-source", "draw": name, "mode": mode})
+                else:
+                    ctx.nontriv(("os-source", name, mode))
+    finally:
+        _random.setstate(state)
+
+
+def _check_disjoint(ctx, procs, how):
+    """procs: list of dict(tag, tt, pt, [rndstr, rndbytes, sid]); every text of every process must be different"""
+    rep = {"unit": "processes", "how": how}
+    for kind, key in (("transient", "tt"), ("persistent", "pt"), ("rndstr", "rndstr"), ("rndbytes", "rndbytes"), ("sid", "sid")):
+        seen = {}
+        for p in procs:
+            for j, t in enumerate(p.get(key) or []):
+                if t in seen and seen[t][0] != p["tag"]:
+                    ctx.oracle_fail("processes:%s:%s-repeats-across-processes" % (how, kind),
+                                    "%s value %r #%d of process %s equals #%d of process %s: the random source keeps state that the "
+                                    "processes share" % (kind, t, j, p["tag"], seen[t][1], seen[t][0]), rep)
+                    break
+                if t in seen and kind in ("transient", "persistent", "rndstr", "rndbytes", "sid"):
+                    ctx.oracle_fail("processes:%s:%s-repeats-within-process" % (how, kind),
+                                    "%s value %r issued twice in process %s" % (kind, t, p["tag"]), rep)
+                    break
+                seen[t] = (p["tag"], j)
+    # one text space per store: a transient text of one process must not be a persistent text of another either
+    both = {}
+    for p in procs:
+        for t in (p.get("tt") or []) + (p.get("pt") or []):
+            if t in both and both[t] != p["tag"]:
+                ctx.oracle_fail("processes:%s:identifier-text-repeats-across-processes" % how,
+                                "identifier text %r issued in process %s and in process %s (for different users)" % (t, both[t], p["tag"]), rep)
+                break
+            both[t] = p["tag"]
+
+
+def unit_processes(ctx):
+    """FRESHNESS ACROSS PROCESSES: the package is imported (and has issued identifiers: lazily created state
+    exists), then workers are forked; each issues on its own IdentDB; the parent goes on issuing afterwards"""
+    from saml2_tophat import s_utils
+    cases = []
+    for rnd, warm in enumerate((False, True)):
+        members = []
+        how = "fork-after-%s" % ("issuing" if warm else "import")
+        if warm:
+            pre = worker_history(_Rec(), "r%d-warmup" % rnd)
+        kids = fork_round(["r%d-w%d" % (rnd, k) for k in range(N_WORKERS)])
+        rec = _Rec()
+        tt, pt, case, _w = worker_history(rec, "r%d-parent" % rnd)
+        parent = dict(tag="r%d-parent" % rnd, tt=tt, pt=pt, case=case, fails=rec.fails, counts=rec.counts,
+                      rndstr=[s_utils.rndstr(24) for _ in range(3)], rndbytes=[s_utils.rndbytes(24) for _ in range(3)],
+                      sid=[s_utils.sid() for _ in range(2)])
+        procs = []
+        for p in kids + [parent]:
+            if "error" in p:
+                ctx.oracle_fail("processes:%s:worker-failed" % how, "worker %s: %s" % (p["tag"], p["error"][-600:]), {"unit": "processes", "how": how})
+                continue
+            procs.append(p)
+            members.append(p)
+            for k, what, rp in p["fails"]:
+                ctx.oracle_fail(k, "[process %s] %s" % (p["tag"], what), rp)
+            for k, n in p["counts"].items():
+                ctx.count("processes:" + k, n)
+            ctx.nontriv(("process", p["tag"], tuple(p["tt"]), tuple(p["pt"])))
+        if warm:
+            procs.append(dict(tag="r%d-warmup" % rnd, tt=pre[0], pt=pre[1]))
+            members.append(dict(tag="r%d-warmup" % rnd, tt=pre[0], pt=pre[1], case=pre[2]))
+        if members:
+            texts = [m["tt"] + m["pt"] for m in members]
+            disjoint = all(not (set(a) & set(b)) for i, a in enumerate(texts) for b in texts[i + 1:])
+            cases.append(dict(id="deployment:" + how,
+                              coq="(%s, [%s])" % (members[0]["case"]["cfg"], "; ".join("[%s]" % "; ".join(m["case"]["ops"]) for m in members)),
+                              impl=[[m["case"]["outs"] for m in members], [[t.encode("utf-8") for t in ts] for ts in texts], disjoint],
+                              show={"workers": [m["tag"] for m in members], "first": members[0]["case"]["show"][:4]}))
+        _check_disjoint(ctx, procs, how)
+        ctx.count("processes:%s:workers" % how, len(kids))
+        if rnd == 0 and procs:
+            ctx.sample({"process": procs[0]["tag"], "transient": procs[0]["tt"][:2], "persistent": procs[0]["pt"][:2]})
+    sp = spawn_round(2)
+    ok = []
+    for p in sp:
+        if p.get("skipped"):
+            ctx.count("processes:spawn:interpreter-did-not-finish-in-300s-not-compared")
+        elif "error" in p:
+            ctx.oracle_fail("processes:spawn:worker-failed", "fresh interpreter %s: %s" % (p["tag"], p["error"]), {"unit": "processes", "how": "spawn"})
+        else:
+            ok.append(p)
+            ctx.nontriv(("process", "spawn", tuple(p["tt"])))
+    _check_disjoint(ctx, ok, "spawn")
+    ctx.count("processes:spawn:workers", len(sp))
+    return cases
+
+
+def run_processes(ctx):
+    cases = unit_processes(ctx)
+    ctx.correspond("deployment", "Model.Ident Model.IdentWorkers", "show_workers", "(cfg * deployment)", cases)
+
+
 def _timed(ctx, name, f, *a):
     import time
     t0 = time.time()
@@ -677,6 +978,8 @@ def _timed(ctx, name, f, *a):
 
 def run(ctx):
     _timed(ctx, "codec", unit_codec, ctx)
+    _timed(ctx, "os_source", unit_os_source, ctx)
+    _timed(ctx, "processes", run_processes, ctx)
     with DigestPatch() as scripted:
         ctx.extra["digest_source"] = ("scripted: saml2_tophat.ident.sha256 replaced (self-check passed)" if scripted
                                       else "FALLBACK: the sha256 patch did not take; generated identifiers are read back")
@@ -739,6 +1042,16 @@ def replay(ctx, payload):
         if not isinstance(c, Exn):
             b = _call(ident_mod.decode, c)
             print("decode :", b if isinstance(b, Exn) else fields(b))
+        return 0
+    if inp.get("unit") == "os-source":
+        unit_os_source(ctx)
+        for k, what, _ in ctx.oracle_failures:
+            print("oracle:", k, "-", what)
+        return 0
+    if inp.get("unit") == "processes":
+        unit_processes(ctx)
+        for k, what, _ in ctx.oracle_failures:
+            print("oracle:", k, "-", what)
         return 0
     if inp.get("unit") == "history":
         with DigestPatch() as scripted:
